@@ -322,6 +322,185 @@ func (e *errEngine) alwaysObj(v ssa.Value, depth int) bool {
 	return false
 }
 
+// ---- repeated tests ------------------------------------------------------------------
+//
+// A branch that tests an SSA value which a dominating branch has already tested
+// can only go one way: when block S is entered only over the k-th edge of an If on
+// value v, every If on the same v in a block S dominates has its outcome fixed
+// (the definition of v dominates the first If, the first If dominates the second,
+// so the first is executed between the latest definition of v and the second — it
+// saw the same value).  The other edge of the second If is never taken.  Source
+// forms that produce this: `if err != nil { …; if err != nil { return nil, err };
+// <unreachable> }` (a return value tested again by the code it was returned to,
+// after a helper was expanded in place).
+
+var redundantEdgeMemo = map[*ssa.Function]map[[2]int]bool{}
+
+// testedValue: the value whose state decides the If, and whether the true edge is
+// the one taken when the value is non-nil / true.
+func testedValue(c ssa.Value) (ssa.Value, bool) {
+	sense := true
+	for {
+		switch x := c.(type) {
+		case *ssa.UnOp:
+			if x.Op == token.NOT {
+				c, sense = x.X, !sense
+				continue
+			}
+		case *ssa.BinOp:
+			if x.Op == token.EQL || x.Op == token.NEQ {
+				v := x.X
+				if isNilConst(v) {
+					v = x.Y
+				} else if !isNilConst(x.Y) {
+					return c, sense
+				}
+				if x.Op == token.EQL {
+					sense = !sense
+				}
+				return v, sense
+			}
+		}
+		return c, sense
+	}
+}
+
+// redundantTestEdges lists the CFG edges (pred index, block index) of fn that a
+// dominating test of the same value rules out.
+func redundantTestEdges(fn *ssa.Function) map[[2]int]bool {
+	if m, ok := redundantEdgeMemo[fn]; ok {
+		return m
+	}
+	out := map[[2]int]bool{}
+	redundantEdgeMemo[fn] = out
+	type test struct {
+		b     *ssa.BasicBlock
+		v     ssa.Value
+		sense bool
+	}
+	var tests []test
+	for _, b := range fn.Blocks {
+		if len(b.Instrs) == 0 || len(b.Succs) != 2 || b.Succs[0] == b.Succs[1] {
+			continue
+		}
+		if ifi, ok := b.Instrs[len(b.Instrs)-1].(*ssa.If); ok {
+			if _, isConst := ifi.Cond.(*ssa.Const); isConst {
+				continue
+			}
+			v, sense := testedValue(ifi.Cond)
+			tests = append(tests, test{b, v, sense})
+		}
+	}
+	for _, t1 := range tests {
+		for k := 0; k < 2; k++ {
+			s := t1.b.Succs[k]
+			if len(s.Preds) != 1 {
+				continue
+			}
+			holds := (k == 0) == t1.sense // the value is non-nil / true in s
+			for _, t2 := range tests {
+				if t2.b == t1.b || t2.v != t1.v || !s.Dominates(t2.b) {
+					continue
+				}
+				taken := 1
+				if holds == t2.sense {
+					taken = 0
+				}
+				out[[2]int{t2.b.Index, t2.b.Succs[1-taken].Index}] = true
+			}
+		}
+	}
+	return out
+}
+
+// pruneReach removes the edges in dead from a walk that started at from and
+// recomputes what is still reached.
+func pruneReach(fn *ssa.Function, r *Reach, from *ssa.BasicBlock, dead map[[2]int]bool) *Reach {
+	hit := false
+	for ed := range dead {
+		hit = hit || r.Edges[ed]
+	}
+	if !hit {
+		return r
+	}
+	if from == nil {
+		from = fn.Blocks[0]
+	}
+	nr := &Reach{Blocks: map[*ssa.BasicBlock]bool{}, Edges: map[[2]int]bool{}}
+	work := []*ssa.BasicBlock{from}
+	for len(work) > 0 {
+		b := work[len(work)-1]
+		work = work[:len(work)-1]
+		if nr.Blocks[b] {
+			continue
+		}
+		nr.Blocks[b] = true
+		for _, sb := range b.Succs {
+			ed := [2]int{b.Index, sb.Index}
+			if !r.Edges[ed] || dead[ed] {
+				continue
+			}
+			nr.Edges[ed] = true
+			if r.Blocks[sb] && !nr.Blocks[sb] {
+				work = append(work, sb)
+			}
+		}
+	}
+	return nr
+}
+
+// walk is the predicate-sensitive walk minus the edges that repeated tests rule out.
+func (e *errEngine) walk(fn *ssa.Function, s Sigma, from *ssa.BasicBlock, stop map[*ssa.BasicBlock]bool) *Reach {
+	return pruneReach(fn, e.r.D.Walk(fn, s, from, stop), from, redundantTestEdges(fn))
+}
+
+// feasibleValue looks through φ-nodes all of whose edges that can be taken (not
+// ruled out by a repeated test) carry one and the same value.
+func feasibleValue(v ssa.Value) ssa.Value {
+	for depth := 0; depth < 8; depth++ {
+		ph, ok := v.(*ssa.Phi)
+		if !ok {
+			return v
+		}
+		dead := redundantTestEdges(ph.Parent())
+		reachable := map[*ssa.BasicBlock]bool{}
+		work := []*ssa.BasicBlock{ph.Parent().Blocks[0]}
+		for len(work) > 0 {
+			b := work[len(work)-1]
+			work = work[:len(work)-1]
+			if reachable[b] {
+				continue
+			}
+			reachable[b] = true
+			for _, sb := range b.Succs {
+				if !dead[[2]int{b.Index, sb.Index}] {
+					work = append(work, sb)
+				}
+			}
+		}
+		var one ssa.Value
+		n := 0
+		for i, ed := range ph.Edges {
+			p := ph.Block().Preds[i]
+			if !reachable[p] || dead[[2]int{p.Index, ph.Block().Index}] {
+				continue
+			}
+			if ed == ssa.Value(ph) {
+				continue
+			}
+			if n == 0 || ed != one {
+				one = ed
+				n++
+			}
+		}
+		if n != 1 {
+			return v
+		}
+		v = one
+	}
+	return v
+}
+
 // ---- summaries -------------------------------------------------------------------
 
 type ctxT struct {
@@ -419,7 +598,7 @@ func (e *errEngine) Sum(fn *ssa.Function, ctx *ctxT) *fnSum {
 	if ctx != nil {
 		base = mergeSigma(base, e.constSigma(fn, fmt.Sprintf("p%d", ctx.Param), ctx.Val))
 	}
-	entryReach := e.r.D.Walk(fn, base, nil, nil)
+	entryReach := e.walk(fn, base, nil, nil)
 	e.r.Valuations++
 	for _, ret := range Returns(fn) {
 		if !entryReach.Has(ret) {
@@ -605,7 +784,7 @@ func (e *errEngine) outcomes(fn *ssa.Function, c *ssa.Call, base Sigma) []depCas
 		term := e.r.D.D(a)
 		set := map[depCase]bool{}
 		for _, k := range ks {
-			reach := e.r.D.Walk(fn, mergeSigma(base, e.constSigma(fn, term, k)), nil, nil)
+			reach := e.walk(fn, mergeSigma(base, e.constSigma(fn, term, k)), nil, nil)
 			e.r.Valuations++
 			if !reach.Has(c) {
 				continue
@@ -843,7 +1022,7 @@ func (e *errEngine) evalAt(fn *ssa.Function, ret ssa.Instruction, ov, errv ssa.V
 			}
 		}
 		e.r.Valuations++
-		evalUnder(e.r.D.Walk(fn, sg, from, nil), caseOf)
+		evalUnder(e.walk(fn, sg, from, nil), caseOf)
 		i := 0
 		for ; i < len(idx); i++ {
 			idx[i]++
@@ -862,7 +1041,7 @@ func (e *errEngine) evalAt(fn *ssa.Function, ret ssa.Instruction, ov, errv ssa.V
 			continue
 		}
 		e.r.Valuations++
-		evalUnder(e.r.D.Walk(fn, base, nil, map[*ssa.BasicBlock]bool{c.Block(): true}), map[*ssa.Call]depCase{})
+		evalUnder(e.walk(fn, base, nil, map[*ssa.BasicBlock]bool{c.Block(): true}), map[*ssa.Call]depCase{})
 	}
 	for sh := range set {
 		re.Shapes = append(re.Shapes, sh)
@@ -1089,7 +1268,7 @@ func (e *errEngine) errsState(p ssa.Value, cx *evalCtx) ecl {
 	stale := false
 	after := map[*ssa.BasicBlock]bool{}
 	for _, sb := range fc.Block().Succs {
-		for b := range e.r.D.Walk(fn, Sigma{}, sb, nil).Blocks {
+		for b := range e.walk(fn, Sigma{}, sb, nil).Blocks {
 			after[b] = true
 		}
 	}
@@ -1112,8 +1291,8 @@ func (e *errEngine) errsState(p ssa.Value, cx *evalCtx) ecl {
 	}
 	key := e.r.D.D(fc)
 	e.r.Valuations += 2
-	rF := e.r.D.Walk(fn, mergeSigma(cx.base, Sigma{key: "F"}), nil, nil)
-	rT := e.r.D.Walk(fn, mergeSigma(cx.base, Sigma{key: "T"}), nil, nil)
+	rF := e.walk(fn, mergeSigma(cx.base, Sigma{key: "F"}), nil, nil)
+	rT := e.walk(fn, mergeSigma(cx.base, Sigma{key: "T"}), nil, nil)
 	switch {
 	case !rF.Has(cx.ret) && rT.Has(cx.ret):
 		return eErrsFatal
